@@ -14,7 +14,7 @@ ASSUMPTIONS = ["64-bit hash collisions excepted (documented); no generated line 
                "models of reader (C02 spec), fields (C10), Murmur (C14), table (C13) composed by hand"]
 
 ATOMS = [b"", b"a", b"b", b"a\tb", b"a\t", b"a b"]
-SPECS = [None, "1", "2", "1-", "-2", "2,1"]
+SPECS = [None, "1", "2", "1-", "-2", "2,1", "1,3-", "-1,3-", "1,3", "2-", "3-,1"]   # incl. lists with a hole that start at field 1 and are open-ended
 
 
 def args_for(spec, d):
@@ -129,7 +129,7 @@ def run(ctx):
         b = [rng.choice([b"1", b"2", b"3", b"4", b"1\tx"]) for _ in range(k + rng.choice([0, 0, 0, 1, 2]))]
         d0 = b"".join(x + b"\n" for x in a)
         d1 = b"".join(x + b"\n" for x in b)
-        s = rng.choice([None, "1"])
+        s = rng.choice([None, "1", "2", "1,3-"])
         f = [os.path.join(ctx.tmp, n_) for n_ in ("in0", "in1", "out0", "out1")]
         open(f[0], "wb").write(d0)
         open(f[1], "wb").write(d1)
